@@ -333,10 +333,12 @@ PROPS['C13']['verus'] = [{'tmpl': 'vsign.rs.tmpl', 'obligations': _VS_UNIT['obli
 PROPS['C13']['functions'] = [VSIGN_VERUS_FNS] + PROPS['C13']['functions']
 PROPS['C13']['assumptions'] = PROPS['C13']['assumptions'] + [A_VSIGN_VERUS, A_USIZE, A_COW, A_INTO,
     'UNBOUNDED part (Verus): (state after, reply) == step(state before, message) for the real process_message and each of its helpers, over the full abstract state (buffer CONTENTS, stored page images, any lengths); new() yields the blank state; step preserves "every stored image is a complete page of its size" (lemma_step_pages_complete) and the real representation invariant implies it (lemma_rep_pages_complete). Induction over the history is the usual argument (initial state + step), not a mechanised obligation']
-PROPS['C14']['verus'] = [{'tmpl': 'vsign.rs.tmpl', 'obligations': ['VirtualSign::process_message', 'lemma_c14_foreign_and_idle', 'VirtualSign::send_data', 'VirtualSign::data_chunks_sent']}]
+PROPS['C14']['verus'] = [{'tmpl': 'vsign.rs.tmpl', 'obligations': ['VirtualSign::process_message', 'lemma_c14_foreign_and_idle', 'VirtualSign::send_data', 'VirtualSign::data_chunks_sent', 'VirtualSignBus::process_message', 'lemma_c14_bus']}]
 PROPS['C14']['functions'] = [VSIGN_VERUS_FNS] + PROPS['C14']['functions']
 PROPS['C14']['assumptions'] = PROPS['C14']['assumptions'] + [A_VSIGN_VERUS,
-    'sign level, UNBOUNDED (Verus): process_message == step, and lemma_c14_foreign_and_idle: a message addressed elsewhere, a report / acknowledgement / unknown frame, or an unaddressed data message arriving at a sign that is not receiving leaves the full state unchanged and gets no reply; a reply carries the sign\'s own address. The bus loop itself (VirtualSignBus::process_message: first reply wins) stays a Kani obligation over 1..4 signs']
+    'sign level, UNBOUNDED (Verus): process_message == step, and lemma_c14_foreign_and_idle: a message addressed elsewhere, a report / acknowledgement / unknown frame, or an unaddressed data message arriving at a sign that is not receiving leaves the full state unchanged and gets no reply; a reply carries the sign\'s own address',
+    'bus level, UNBOUNDED in the population (Verus, added): the real <VirtualSignBus as SignBus>::process_message is extracted (its `for sign in &mut self.signs` loop under a loop invariant over the slice::IterMut prophecies) against bus_delivers: every sign up to and including the first responder has processed the message exactly as it would alone (step), none before it replied, the reply is that sign\'s reply, the bus never fails; nobody replies = every sign processed it and every sign is well formed again. lemma_c14_bus derives from that + the sign-level lemma, for ANY number of signs with distinct addresses: absent address / report / ack / unknown => no reply and nothing changes; unaddressed data => no reply, only receiving signs change; addressed to sign j => (state of j, reply) == step(j alone), no sign before j changes, and when j does not reply no other sign changes. NOT covered by the Verus unit (vstd has no specification for dropping a partly consumed IterMut): the signs AFTER the first responder are left untouched, and rep() on the reply path - that clause stays a Kani obligation over 1..4 signs',
+    'extraction rewrites for the bus function: `for sign in &mut self.signs` -> `for sign in it: self.signs.iter_mut()` (std: IntoIterator for &mut Vec<T> is iter_mut(); vstd specifies iter_mut but not that into_iter), the error type Box<dyn Error + Send + Sync> (never constructed by this function) replaced by a unit stand-in, debug! calls replaced by ()']
 
 A_STDIO = ('A-std-io: ASSUMED contracts of the std::io items Frame::read / Frame::write call (contracts/io_standins.rs): Write::write_all(buf) appends exactly buf to what the sink '
            'received or fails having delivered a proper prefix (short writes and Interrupted are retried inside it); BufReader::with_capacity(1, r).read_until(LF, v) consumes from r '
